@@ -506,6 +506,11 @@ def duplicate_composite(rng, s, b):
     if len(cps) < 2:
         return None
     c1, c2 = rng.sample(cps, 2)
+    multi = [c for c in cps if len(c["deps"]) >= 2]
+    if multi and rng.random() < 0.7:
+        # a duplicated SET of several dependencies: the two listings may differ in order
+        c1 = rng.choice(multi)
+        c2 = rng.choice([c for c in cps if c is not c1])
     deps = list(c1["deps"])
     rng.shuffle(deps)
     c2["deps"] = deps
